@@ -1,7 +1,8 @@
 """C18 - TCP transports honour the transport contract on real sockets.
 
 1. TLC explores the contract spec AdbTransport (connect, idempotent close, peer writes of 1..3 bytes, reads of 1..4
-   bytes returning a non-empty prefix of the undelivered bytes, timeouts only when nothing is undelivered):
+   bytes - with the transport timeout or as a poll (timeout 0) - returning a non-empty prefix of the undelivered
+   bytes, timeouts only when nothing is undelivered):
    InOrderNoLossNoDup, ReadAtMost, TimeoutOnlyWhenEmpty; its labelled graph yields the driver scripts.
 2. spec->code / code->spec: a transition tour of that graph is executed by a *sequential* driver that owns both
    socket ends (peer write logged before sendall, then wait until the bytes are readable on the host side, then
@@ -99,14 +100,15 @@ def drive_sync(script, timeout_s=0.05):
                 elif op in ('read', 'timeout'):
                     t0 = time.time()
                     try:
-                        got = t.bulk_read(a['n'], timeout_s)
+                        tmo = 0 if a.get('poll') else timeout_s
+                        got = t.bulk_read(a['n'], tmo)
                         ok = [byte_name(delivered + i + 1) for i in range(len(got))] == list(got)
                         tr.append(dict(op='read', n=a['n'], k=len(got), first=delivered + 1, contiguous=bool(ok)))
                         delivered += len(got)
                     except TcpTimeoutException:
-                        tr.append(dict(op='timeout', n=a['n'], rightClass=True, elapsed=int((time.time() - t0) * 1000), timeout=int(timeout_s * 1000)))
+                        tr.append(dict(op='timeout', n=a['n'], rightClass=True, elapsed=int((time.time() - t0) * 1000), timeout=int(tmo * 1000)))
                     except Exception as x:  # noqa
-                        tr.append(dict(op='timeout', n=a['n'], rightClass=False, elapsed=int((time.time() - t0) * 1000), timeout=int(timeout_s * 1000), cls=type(x).__name__))
+                        tr.append(dict(op='timeout', n=a['n'], rightClass=False, elapsed=int((time.time() - t0) * 1000), timeout=int(tmo * 1000), cls=type(x).__name__))
             except Exception as x:  # noqa
                 tr.append(dict(op='error', clause={'connect': 'Reconnectable', 'close': 'CloseIdempotent'}.get(op, 'Raises'), what='%s raised %r' % (op, x)))
                 break
@@ -151,14 +153,15 @@ def drive_async(script, timeout_s=0.05):
                     elif op in ('read', 'timeout'):
                         t0 = time.time()
                         try:
-                            got = await t.bulk_read(a['n'], timeout_s)
+                            tmo = 0 if a.get('poll') else timeout_s
+                            got = await t.bulk_read(a['n'], tmo)
                             ok = [byte_name(delivered + i + 1) for i in range(len(got))] == list(got)
                             tr.append(dict(op='read', n=a['n'], k=len(got), first=delivered + 1, contiguous=bool(ok)))
                             delivered += len(got)
                         except TcpTimeoutException:
-                            tr.append(dict(op='timeout', n=a['n'], rightClass=True, elapsed=int((time.time() - t0) * 1000), timeout=int(timeout_s * 1000)))
+                            tr.append(dict(op='timeout', n=a['n'], rightClass=True, elapsed=int((time.time() - t0) * 1000), timeout=int(tmo * 1000)))
                         except Exception as x:  # noqa
-                            tr.append(dict(op='timeout', n=a['n'], rightClass=False, elapsed=int((time.time() - t0) * 1000), timeout=int(timeout_s * 1000), cls=type(x).__name__))
+                            tr.append(dict(op='timeout', n=a['n'], rightClass=False, elapsed=int((time.time() - t0) * 1000), timeout=int(tmo * 1000), cls=type(x).__name__))
                 except Exception as x:  # noqa
                     tr.append(dict(op='error', clause={'connect': 'Reconnectable', 'close': 'CloseIdempotent'}.get(op, 'Raises'), what='%s raised %r' % (op, x)))
                     break
@@ -269,7 +272,7 @@ def body(ctx, prefix='C18'):
             if c < 0.45:
                 sc.append(dict(op='pw', m=rng.choice([1, 2, 7, 100, 5000])))
             elif c < 0.9:
-                sc.append(dict(op='read', n=rng.choice([1, 3, 24, 4096, 65536])))
+                sc.append(dict(op='read', n=rng.choice([1, 3, 24, 4096, 65536]), poll=rng.random() < 0.3))
             elif c < 0.95:
                 sc.append(dict(op='close'))
                 sc.append(dict(op='connect'))
